@@ -99,17 +99,27 @@ func gItem(o Op) string {
 		return "IOp (" + o.Kind + " " + kit.GStrs(o.IDs) + ")"
 	case "Obs":
 		v, a := gView(o.Obs)
-		return "IObs " + kit.GBool(o.Tag == "final") + " " + v + " " + a
+		return "IObs " + kit.GBool(o.Tag == "final") + " " + v + " " + a // final = premises hold
 	case "Panic":
 		return "IPanic"
 	}
 	panic("gItem " + o.Kind)
 }
 
-func gCase(ops []Op) string {
-	items := make([]string, len(ops))
-	for i, o := range ops {
-		items[i] = gItem(o)
+// gCase renders the history; ops[roundStart:roundEnd] (the closing round) become one IClose item.
+func gCase(ops []Op, roundStart, roundEnd int) string {
+	var items []string
+	for i := 0; i < len(ops); i++ {
+		if i == roundStart && roundEnd > roundStart {
+			var r []string
+			for _, o := range ops[roundStart:roundEnd] {
+				r = append(r, strings.TrimPrefix(gItem(o), "IOp "))
+			}
+			items = append(items, "IClose "+kit.GList(r))
+			i = roundEnd - 1
+			continue
+		}
+		items = append(items, gItem(ops[i]))
 	}
 	return "[" + strings.Join(items, ";\n   ") + "]"
 }
